@@ -74,7 +74,16 @@ def gen_ladder():
     write("LadderC", body)
 
 
-SECTIONS = {"ladder": gen_ladder}
+def gen_refs():
+    from flumine import utils, config
+    from flumine.order import order as o
+    body = "Definition HASH_LEN : nat := %d%%nat.\n" % utils.STRATEGY_NAME_HASH_LENGTH
+    body += "Definition VALID_CHARS : list Z := %s.\n" % zl(sorted(ord(c) for c in o.VALID_BETFAIR_CUSTOMER_ORDER_REF_CHARACTERS))
+    body += "Definition DEFAULT_SEP : list Z := %s.\n" % zl(ord(c) for c in config.order_sep)
+    write("RefsC", body)
+
+
+SECTIONS = {"ladder": gen_ladder, "refs": gen_refs}
 
 if __name__ == "__main__":
     which = sys.argv[1:] or sorted(SECTIONS)
